@@ -182,6 +182,13 @@ func (c *Encoder) encodeSubroutineDeclaration(sub *ast.SubroutineDeclaration) *F
 	w.Reset()
 
 	w.Write(c.encodeIdent(sub.Name).Encode())
+	// Parameters of a functional subroutine
+	for _, param := range sub.Parameters {
+		var bin []byte
+		bin = append(bin, c.encodeIdent(param.Type).Encode()...)
+		bin = append(bin, c.encodeIdent(param.Name).Encode()...)
+		w.Write((&Frame{frameType: SUBROUTINE_PARAMETER, buffer: bin}).Encode())
+	}
 	if sub.ReturnType != nil {
 		w.Write(c.encodeIdent(sub.ReturnType).Encode())
 	}
